@@ -104,7 +104,16 @@ def worker_main(a):
     }
     keys = set()
     seen_sigs = {}
+    known = load_known()
     has_faults = hasattr(prop, "faults")
+
+    def sig_of(viol):
+        """(invariant, site, key of the open known finding it matches or None): a violation
+        that a known-findings entry does not cover must never be merged with one it covers"""
+        kf = match_known(a.prop, {"invariant": viol.invariant, "site": viol.site,
+                                  "detail": jsonable(viol.detail)}, known)
+        return (viol.invariant, viol.site, kf["key"] if kf else None)
+
     indices = list(range(a.wid, runs, a.nworkers))
     if a.recheck:
         indices = indices[: a.recheck]
@@ -120,7 +129,7 @@ def worker_main(a):
             keys.add(ctx.abstract_key())
 
     def on_violation(i, seed_i, ch, fault, viol, ctx):
-        sig = (viol.invariant, viol.site)
+        sig = sig_of(viol)
         rec = seen_sigs.get(sig)
         if rec is not None:
             rec["count"] += 1
@@ -142,7 +151,7 @@ def worker_main(a):
                 c2, ch2, v2 = run_world(prop, cand, a.tier, cfg, fault, replay=True)
             except Exception:
                 return False
-            if v2 is not None and (v2.invariant, v2.site) == sig:
+            if v2 is not None and sig_of(v2) == sig:
                 best_ctx[:] = [c2, ch2, v2]
                 return True
             return False
@@ -153,7 +162,7 @@ def worker_main(a):
         # canonical final run of the minimised list
         faulthandler.dump_traceback_later(a.run_timeout, exit=True)
         c2, ch2, v2 = run_world(prop, best, a.tier, cfg, fault, replay=True)
-        if v2 is None or (v2.invariant, v2.site) != sig:
+        if v2 is None or sig_of(v2) != sig:
             out["harness_errors"].append(
                 "minimised run does not reproduce %r (non-determinism?)" % (sig,))
             c2, ch2, v2 = best_ctx
@@ -416,7 +425,8 @@ def check_main(a):
         known = load_known()
         by_sig = {}
         for v in viols:
-            sig = (v["invariant"], v["site"])
+            kf = match_known(pid, v, known)
+            sig = (v["invariant"], v["site"], kf["key"] if kf else None)
             cur = by_sig.get(sig)
             if cur is None or len(v.get("choices", [])) < len(cur.get("choices", [])):
                 if cur is not None:
@@ -428,7 +438,7 @@ def check_main(a):
         n_unlisted = 0
         os.makedirs(os.path.join(VERIF, "replays"), exist_ok=True)
         known_hit = {}
-        for sig, v in sorted(by_sig.items()):
+        for sig, v in sorted(by_sig.items(), key=lambda kv: tuple(map(str, kv[0]))):
             k = match_known(pid, v, known)
             if k is not None:
                 known_hit.setdefault(k["key"], (k, 0))
